@@ -876,7 +876,7 @@ fn main() {
     rec.variant("promgroup", if dup { "as-written" } else { "repaired" });
     // generated cases on a few threads (the scripted broker is per thread, the runtime per case)
     let threads = 4u64;
-    let (nq, nr, nf, na) = if args.thorough { (40000, 20000, 10000, 10000) } else { (2500, 1500, 600, 800) };
+    let (nq, nr, nf, na) = if args.thorough { (24000, 6000, 4000, 6000) } else { (1500, 500, 400, 600) };
     let seed = args.seed;
     let handles: Vec<_> = (0..threads).map(|t| std::thread::spawn(move || {
         let mut rng = Rng::new(seed.wrapping_mul(1000003).wrapping_add(t));
